@@ -22,12 +22,15 @@ def build(tier):
     full = list(range(10))
     qs = []
     if quick:
-        plan = [(1, [[a] for a in full] + ps.seqs(full, 2) + ps.seqs([0, 3, 5, 6], 3, first=(0, 3))),
+        rej = [[0, 3, 8, 6], [3, 0, 8, 6, 6], [0, 3, 6, 8, 1, 6], [0, 3, 8, 6, 9, 6], [0, 3, 8, 6, 4, 6]]     # output refusing the flow definition
+        plan = [(1, [[a] for a in full] + ps.seqs(full, 2) + ps.seqs([0, 3, 5, 6], 3, first=(0, 3)) + rej), (10, rej + [[0, 3, 6, 10, 6]]), (11, [[0, 3, 6, 6, 7], [0, 3, 6, 6], [0, 3, 6, 13, 6, 12]]),
                 (2, ps.seqs([0, 3, 4, 5, 6, 7], 2, first=(0, 3, 6))),
                 (4, ps.seqs([0, 3, 5, 6], 2, first=(0, 3))),
                 (8, ps.seqs([0, 6, 7], 2))]
     else:
-        plan = [(1, [[a] for a in full] + ps.seqs(full, 2) + ps.seqs(full, 3) + ps.seqs([0, 3, 4, 5, 6], 4, first=(0, 3), must=(6,))),
+        rej = [[0, 3, 8, 6], [3, 0, 8, 6, 6], [0, 3, 6, 8, 1, 6], [0, 3, 8, 6, 9, 6], [0, 3, 8, 6, 4, 6]]
+        plan = [(10, rej + ps.seqs([0, 3, 6, 8, 10], 4, first=(0, 3))), (11, [[0, 3] + t for t in ps.seqs([6, 7, 11, 12], 4, must=(6,))]),
+                (1, rej + [[a] for a in full] + ps.seqs(full, 2) + ps.seqs(full, 3) + ps.seqs([0, 3, 4, 5, 6], 4, first=(0, 3), must=(6,))),
                 (2, ps.seqs(full, 2) + ps.seqs([0, 3, 4, 5, 6, 7], 3)), (4, ps.seqs([0, 3, 4, 5, 6, 7], 3)),
                 (5, ps.seqs([0, 3, 4, 5, 6, 7], 3)), (8, ps.seqs([0, 1, 6, 7], 3))]
     for pipe, sq in plan:
